@@ -10,7 +10,7 @@ import core      # noqa: E402
 SUITES = {'C17': ('inplace', 'pack'), 'C10': ('pack', 'sim'), 'C03': ('tour', 'sim', 'pack', 'rec'),
           'C04': ('tour', 'sim', 'pack', 'rec'), 'C05': ('tour', 'sim', 'pack', 'rec'), 'C09': ('tour', 'sim', 'rec'),
           'C01': ('tour', 'sim', 'pack', 'rec'), 'C02': ('tour', 'sim'), 'C07': ('tour', 'sim', 'rec'),
-          'C13': ('tour', 'sim', 'rec'), 'C14': ('tour', 'sim', 'rec'), 'C06': ('sched',)}
+          'C13': ('tour', 'sim', 'rec'), 'C14': ('tour', 'sim', 'rec'), 'C06': ('sched', 'rec')}
 
 RULES = {
     'C10': 'UDF images of the core corpus (File Identifier packing witnesses of DirPack.tla, random histories with '
